@@ -505,10 +505,10 @@ Definition generate (compress : list N -> list N)
 (* input  := ( mode ... )
    mode 0 : ( 0 which line )                         which: 0 current _parseInventoryLine, 1 pinned (unguarded)
             -> ( 0 name typ sign |prio| mod 1000000007 location display ) | ( 1 exn )
-   mode 1 : ( 1 which fetches queries )
-            fetches := list of ( url hasdata data oracle )   oracle := list of ( suffix_len kind text )
-               kind 0 zlib.error, 1 UnicodeError, 2 decoded text; looked up by the length of the payload
-               that is left after comment stripping (an absent entry counts as zlib.error)
+   mode 1 : ( 1 which fetches queries oracle )
+            fetches := list of ( url hasdata data )   oracle := list of ( payload kind text )
+               kind 1 UnicodeError, 2 decoded text; looked up by the bytes of the payload that is left after
+               comment stripping (an absent entry counts as zlib.error)
             -> ( status links reports answers )  status 0 returned | 1 + exn code
                links := list of ( name base location ); reports := list of ( kind text text )
                answers := getLink for every key of links, then for every query: ( name found url )
@@ -541,12 +541,12 @@ Definition link_sexp (kv : text * (text * text)) : sexp :=
   L [of_text (fst kv); of_text (fst (snd kv)); of_text (snd (snd kv))].
 
 Definition oracle_of (table : list sexp) (payload : list N) : option (N * text) :=
-  match find (fun e => Nat.eqb (to_nat (nth_s 0 e)) (length payload)) table with
+  match find (fun e => text_eqb (to_text (nth_s 0 e)) payload) table with
   | Some e => Some (to_N (nth_s 1 e), to_text (nth_s 2 e))
   | None => None
   end.
 
-(* the two oracles of one fetch, from the table the harness computed with the real zlib / utf-8 codec:
+(* the two oracles, from the table the harness computed with the real zlib / utf-8 codec:
    `decompress` returns the table entry's decoded text as the "raw bytes" and `decode` passes them on *)
 Definition table_decompress (table : list sexp) (payload : list N) : option (list N) :=
   match oracle_of table payload with
@@ -576,20 +576,11 @@ Fixpoint range_filter (f : N -> bool) (lo : N) (n : nat) : list N :=
   | S n' => if f lo then lo :: range_filter f (N.succ lo) n' else range_filter f (N.succ lo) n'
   end.
 
-Definition run_fetches (which : Z) (fetches : list sexp) (links : dict) : outcome (dict * list report) :=
-  (fix go (fs : list sexp) (links : dict) (reps : list report) : outcome (dict * list report) :=
-     match fs with
-     | [] => Ok (links, reps)
-     | f :: rest =>
-       let url := to_text (nth_s 0 f) in
-       let data := if to_bool (nth_s 1 f) then Some (to_text (nth_s 2 f)) else None in
-       let table := to_list (nth_s 3 f) in
-       let pl := if Z.eqb which 0 then parse_line py_int else parse_line_old py_int in
-       match update pl (table_decompress table) table_decode links url data with
-       | Raise e => Raise e
-       | Ok (links', r) => go rest links' (reps ++ r)
-       end
-     end) fetches links [].
+Definition run_fetches (which : Z) (fetches : list sexp) (table : list sexp) : outcome (dict * list report) :=
+  let pl := if Z.eqb which 0 then parse_line py_int else parse_line_old py_int in
+  update_all (update pl (table_decompress table) table_decode) [] []
+             (map (fun f => (to_text (nth_s 0 f),
+                             if to_bool (nth_s 1 f) then Some (to_text (nth_s 2 f)) else None)) fetches).
 
 Definition answer_sexp (links : dict) (name : text) : sexp :=
   match get_link links name with
@@ -606,7 +597,7 @@ Definition run (s : sexp) : sexp :=
     | Raise e => L [A 1%Z; A (exn_code e)]
     end
   | 1%Z =>
-    match run_fetches (to_Z (nth_s 1 s)) (to_list (nth_s 2 s)) [] with
+    match run_fetches (to_Z (nth_s 1 s)) (to_list (nth_s 2 s)) (to_list (nth_s 4 s)) with
     | Raise e => L [A (1 + exn_code e)%Z; L []; L []; L []]
     | Ok (links, reps) =>
       L [A 0%Z; L (map link_sexp links); L (map report_sexp reps);
